@@ -61,6 +61,10 @@ func bandwidth(segments []muxerSegment) (int, int) {
 	var durations time.Duration
 
 	for _, seg := range segments {
+		// segments with no duration (two random access units with the same DTS) have no bit rate
+		if seg.getDuration() <= 0 {
+			continue
+		}
 		if _, ok := seg.(*muxerGap); !ok {
 			bandwidth := 8 * seg.getSize() * uint64(time.Second) / uint64(seg.getDuration())
 			if bandwidth > maxBandwidth {
@@ -69,6 +73,10 @@ func bandwidth(segments []muxerSegment) (int, int) {
 			sizes += seg.getSize()
 			durations += seg.getDuration()
 		}
+	}
+
+	if durations == 0 {
+		return int(maxBandwidth), 0
 	}
 
 	averageBandwidth := 8 * sizes * uint64(time.Second) / uint64(durations)
